@@ -8,10 +8,34 @@ from . import common
 
 
 def setup():
-    '''Full .vo build of the whole development, then the hygiene scan.'''
-    targets = []      # everything: every .v file of the development (cases files import models that
-                      # the property files do not depend on, e.g. Sched/Replay.v)
-    ok, out = common.coq_make()
+    '''Full .vo build of everything the checks rest on: Props/<id>.vo for every check
+    registered in MANIFEST.json, the NonVacuity files, and every module that a driver's
+    generated cases files import (found by scanning harness/ for "From VV Require Import");
+    then the hygiene scan over the whole development.'''
+    import json
+    import os
+    import re
+    manifest = json.load(open(os.path.join(common.VERIF, 'MANIFEST.json')))
+    targets = set()
+    for chk in manifest.get('checks', []):
+        pid = chk['property_id']
+        if os.path.exists(os.path.join(common.COQ, 'Props', pid + '.v')):
+            targets.add(f'Props/{pid}.vo')
+    for root, _, names in os.walk(common.COQ):
+        for name in names:
+            if name == 'NonVacuity.v':
+                targets.add(os.path.relpath(os.path.join(root, name), common.COQ)[:-2] + '.vo')
+    for root, _, names in os.walk(os.path.join(common.VERIF, 'harness')):
+        for name in names:
+            if name.endswith('.py'):
+                text = open(os.path.join(root, name)).read()
+                for stmt in re.findall(r'From\s+VV\s+Require\s+(?:Import\s+|Export\s+)?'
+                                       r'((?:[A-Za-z_][\w\']*(?:\.[A-Za-z_][\w\']*)*\s*)+)\.(?:\s|$|\\n)', text):
+                    for mod in stmt.split():
+                        tgt = mod.replace('.', '/') + '.vo'
+                        if os.path.exists(os.path.join(common.COQ, tgt[:-1])):
+                            targets.add(tgt)
+    ok, out = common.coq_make(sorted(targets))
     if not ok:
         print(out[-6000:])
         print('setup: Coq build FAILED')
@@ -21,7 +45,8 @@ def setup():
         print('\n'.join(bad))
         print('setup: hygiene scan FAILED')
         return 1
-    print('setup: Coq development built (full .vo build of every file), hygiene scan clean')
+    print(f'setup: {len(targets)} Coq targets (and all they depend on) built with a full .vo build, '
+          'hygiene scan clean')
     return 0
 
 
